@@ -90,6 +90,11 @@ type Store struct {
 	counts map[string]int
 	Log    []Call
 
+	// Before, when set, runs at the start of every storage operation, outside the store's lock: the scheduler of the
+	// concurrency checks parks the calling request there. A non-empty result is the fault kind to inject into this very call.
+	Before func(ctx context.Context, op string) string
+	forced string
+
 	// Fallback, when set, is returned for entity ids that are not registered (used by the
 	// crash check to exercise a service provider built from arbitrary metadata).
 	Fallback *serviceprovider.ServiceProvider
@@ -117,12 +122,23 @@ func newStore() *Store {
 	}
 }
 
+func (s *Store) before(ctx context.Context, op string) string {
+	if s.Before == nil {
+		return ""
+	}
+	return s.Before(ctx, op)
+}
+
 // fault returns the kind of fault to inject for this call of op ("" = none) and logs the call.
 func (s *Store) enter(op string, args ...string) (string, *Call) {
 	s.counts[op]++
 	n := s.counts[op]
 	c := Call{Op: op, Args: args}
 	kind := ""
+	if s.forced != "" {
+		kind, c.Faulted = s.forced, true
+		s.forced = ""
+	}
 	for _, f := range s.faults {
 		if f.Op == op && (f.Occurrence == 0 || f.Occurrence == n) {
 			kind = f.Kind
@@ -251,9 +267,11 @@ func (s *Store) RemoveSP(entityID string) {
 
 // --- provider.Storage ---
 
-func (s *Store) Health(context.Context) error {
+func (s *Store) Health(ctx context.Context) error {
+	forced := s.before(ctx, "Health")
 	s.mu.Lock()
 	defer s.mu.Unlock()
+	s.forced = forced
 	kind, c := s.enter("Health")
 	if kind != "" {
 		c.Err = ErrInjected.Error()
@@ -292,21 +310,27 @@ func (s *Store) keyResult(op, name string) (*key.CertificateAndKey, error) {
 	panic("unknown fault kind " + kind)
 }
 
-func (s *Store) GetCA(context.Context) (*key.CertificateAndKey, error) {
+func (s *Store) GetCA(ctx context.Context) (*key.CertificateAndKey, error) {
+	forced := s.before(ctx, "GetCA")
 	s.mu.Lock()
 	defer s.mu.Unlock()
+	s.forced = forced
 	return s.keyResult("GetCA", "idp-metadata")
 }
 
-func (s *Store) GetMetadataSigningKey(context.Context) (*key.CertificateAndKey, error) {
+func (s *Store) GetMetadataSigningKey(ctx context.Context) (*key.CertificateAndKey, error) {
+	forced := s.before(ctx, "GetMetadataSigningKey")
 	s.mu.Lock()
 	defer s.mu.Unlock()
+	s.forced = forced
 	return s.keyResult("GetMetadataSigningKey", "idp-metadata")
 }
 
-func (s *Store) GetResponseSigningKey(context.Context) (*key.CertificateAndKey, error) {
+func (s *Store) GetResponseSigningKey(ctx context.Context) (*key.CertificateAndKey, error) {
+	forced := s.before(ctx, "GetResponseSigningKey")
 	s.mu.Lock()
 	defer s.mu.Unlock()
+	s.forced = forced
 	name := s.ResponseKeyName
 	if name == "" {
 		name = "idp-response"
@@ -314,9 +338,11 @@ func (s *Store) GetResponseSigningKey(context.Context) (*key.CertificateAndKey, 
 	return s.keyResult("GetResponseSigningKey", name)
 }
 
-func (s *Store) GetEntityByID(_ context.Context, entityID string) (*serviceprovider.ServiceProvider, error) {
+func (s *Store) GetEntityByID(ctx context.Context, entityID string) (*serviceprovider.ServiceProvider, error) {
+	forced := s.before(ctx, "GetEntityByID")
 	s.mu.Lock()
 	defer s.mu.Unlock()
+	s.forced = forced
 	kind, c := s.enter("GetEntityByID", entityID)
 	if kind == "errval" {
 		c.Err = ErrInjected.Error()
@@ -344,9 +370,11 @@ func (s *Store) GetEntityByID(_ context.Context, entityID string) (*serviceprovi
 	return sp, nil
 }
 
-func (s *Store) GetEntityIDByAppID(_ context.Context, appID string) (string, error) {
+func (s *Store) GetEntityIDByAppID(ctx context.Context, appID string) (string, error) {
+	forced := s.before(ctx, "GetEntityIDByAppID")
 	s.mu.Lock()
 	defer s.mu.Unlock()
+	s.forced = forced
 	kind, c := s.enter("GetEntityIDByAppID", appID)
 	if kind == "errval" {
 		c.Err = ErrInjected.Error()
@@ -364,9 +392,11 @@ func (s *Store) GetEntityIDByAppID(_ context.Context, appID string) (string, err
 	return e, nil
 }
 
-func (s *Store) CreateAuthRequest(_ context.Context, req *samlp.AuthnRequestType, acs, binding, relayState, appID string) (models.AuthRequestInt, error) {
+func (s *Store) CreateAuthRequest(ctx context.Context, req *samlp.AuthnRequestType, acs, binding, relayState, appID string) (models.AuthRequestInt, error) {
+	forced := s.before(ctx, "CreateAuthRequest")
 	s.mu.Lock()
 	defer s.mu.Unlock()
+	s.forced = forced
 	kind, c := s.enter("CreateAuthRequest", acs, binding, relayState, appID)
 	c.Req = req
 	if kind != "" {
@@ -389,9 +419,11 @@ func (s *Store) CreateAuthRequest(_ context.Context, req *samlp.AuthnRequestType
 	return r, nil
 }
 
-func (s *Store) AuthRequestByID(_ context.Context, id string) (models.AuthRequestInt, error) {
+func (s *Store) AuthRequestByID(ctx context.Context, id string) (models.AuthRequestInt, error) {
+	forced := s.before(ctx, "AuthRequestByID")
 	s.mu.Lock()
 	defer s.mu.Unlock()
+	s.forced = forced
 	kind, c := s.enter("AuthRequestByID", id)
 	if kind == "errval" {
 		c.Err = ErrInjected.Error()
@@ -439,9 +471,11 @@ func applyUser(u UserSpec, set models.AttributeSetter) {
 	}
 }
 
-func (s *Store) SetUserinfoWithUserID(_ context.Context, appID string, set models.AttributeSetter, userID string, _ []int) error {
+func (s *Store) SetUserinfoWithUserID(ctx context.Context, appID string, set models.AttributeSetter, userID string, _ []int) error {
+	forced := s.before(ctx, "SetUserinfoWithUserID")
 	s.mu.Lock()
 	defer s.mu.Unlock()
+	s.forced = forced
 	kind, c := s.enter("SetUserinfoWithUserID", appID, userID)
 	if kind == "partial" || kind == "errval" {
 		// the lookup fills the setter and then fails (a storage that streams attributes and loses its connection)
@@ -471,9 +505,11 @@ func (s *Store) SetUserinfoWithUserID(_ context.Context, appID string, set model
 	return nil
 }
 
-func (s *Store) SetUserinfoWithLoginName(_ context.Context, set models.AttributeSetter, loginName string, _ []int) error {
+func (s *Store) SetUserinfoWithLoginName(ctx context.Context, set models.AttributeSetter, loginName string, _ []int) error {
+	forced := s.before(ctx, "SetUserinfoWithLoginName")
 	s.mu.Lock()
 	defer s.mu.Unlock()
+	s.forced = forced
 	kind, c := s.enter("SetUserinfoWithLoginName", loginName)
 	if kind == "partial" || kind == "errval" {
 		c.Err = ErrInjected.Error()
